@@ -28,7 +28,7 @@ def confirm(d):
     d = os.path.abspath(d)
     m = load_meta(d)
     am = json.load(open(os.path.join(d, 'agent_meta.json'))) if os.path.exists(os.path.join(d, 'agent_meta.json')) else {}
-    wt = '/tmp/confirm_wt_%d' % os.getpid()
+    wt = '/tmp/confirm_wt_%d_%s' % (os.getpid(), os.path.basename(d))
     sh('git -C /repo worktree add -q %s HEAD' % wt)
     try:
         env = dict(os.environ, PYTHONPATH=wt)
@@ -36,10 +36,13 @@ def confirm(d):
         rc, out = sh('git apply %s/patch.diff' % d, cwd=wt)
         assert rc == 0, out
         rc1, out1 = sh('/venv/bin/python %s/demo.py' % d, cwd=wt, env=env, timeout=900)
-        junit = '/tmp/confirm_%d.xml' % os.getpid()
+        junit = '/tmp/confirm_%d_%s.xml' % (os.getpid(), os.path.basename(d))
         t0 = time.time()
-        sh('/venv/bin/python -m pytest -q -p no:cacheprovider --timeout=900 --continue-on-collection-errors --junitxml=%s' % junit, cwd=wt, env=env, timeout=3000)
+        # private network namespace: the suite's mock servers use fixed localhost ports, so concurrent suite runs would collide
+        sh("unshare -n sh -c 'ip link set lo up; exec /venv/bin/python -m pytest -q -p no:cacheprovider --timeout=900 "
+           "--continue-on-collection-errors --junitxml=%s'" % junit, cwd=wt, env=env, timeout=3000)
         rcs, outs = sh('python3 %s/tools_suite_check.py %s' % (V, junit))
+        m = load_meta(d)    # re-read: a concurrent `check` may have written its result meanwhile
         m.update(property=am.get('property', os.path.basename(d)[:3]), summary=am.get('summary'), needs=am.get('needs'),
                  confirmed=dict(demo_exit_without_change=rc0, demo_exit_with_change=rc1, demo_output_with_change=out1[-600:],
                                 suite_matches_baseline=(rcs == 0), suite_summary=outs.strip().splitlines()[0] if outs.strip() else '',
